@@ -5,7 +5,7 @@ import warnings
 import numpy as np
 from hypothesis import strategies as st
 
-from vf.harness import Clause, Info, require
+from vf.harness import Clause, Info, Skip, require
 from vf import ref_tpt as R
 
 from enspara import tpt
@@ -27,13 +27,16 @@ RULE = ("Hypothesis draws an ergodic reversible chain T = W/rowsum(W) from symme
 ASSUMPTIONS = ["the chain is irreducible, row-stochastic to rounding and reversible (built from symmetric weights)",
                "populations, when given, are the exact stationary vector as a float64 ndarray",
                "source and sink sets contain no repeated state and leave at least one intermediate state",
+               "reactive_populations: at least one intermediate state has a committor strictly between 0 and 1 "
+               "(otherwise pi*q+*q- is identically zero, cannot be normalised, and the case is skipped)",
                "results may come back as ndarray or as a scipy.sparse container; only values are compared"]
 SHARDS = {"quick": 4, "thorough": 16}
 
-F_ATOL, F_RTOL = 1e-12, 1e-8     # flux against the formula (observed <= 3e-17 abs, <= 2e-13 rel)
+F_ATOL, F_RTOL = 1e-12, 1e-6     # flux against the formula (observed: <= 4e-10 relative on stiff chains)
 ZERO = 1e-15                     # entries that must vanish (diagonal, into sources, out of sinks; observed 0)
 BAL_ATOL, BAL_RTOL = 1e-12, 1e-9  # balance sums (observed <= 2e-16)
-P_ATOL, P_RTOL = 1e-12, 1e-8
+P_ATOL, P_RTOL = 1e-10, 1e-6     # observed <= 1e-12 abs
+NONNEG = 1e-10                   # rounding slack for 'non-negative' (same as the [0,1] slack of C07)
 SAME = 1e-12
 
 CAL = {}
@@ -51,9 +54,12 @@ def _quiet(fn, *a, **k):
 
 
 @st.composite
-def flux_case(draw, max_n=8):
+def flux_case(draw, max_n=8, reactive_only=False):
     ch = draw(R.chain(max_n=max_n, kinds=R.REV_KINDS))
-    src, snk = draw(R.disjoint_sets(ch["n"], min_inter=1))
+    if reactive_only or draw(st.sampled_from([True, True, False])):
+        src, snk = draw(R.reactive_sets(ch))
+    else:
+        src, snk = draw(R.disjoint_sets(ch["n"], min_inter=1))
     return {"chain": ch, "container": draw(st.sampled_from(R.CONTAINERS)),
             "sources": src, "sinks": snk,
             "src_form": draw(st.sampled_from(R.SET_FORMS)), "snk_form": draw(st.sampled_from(R.SET_FORMS)),
@@ -62,7 +68,7 @@ def flux_case(draw, max_n=8):
 
 @st.composite
 def multi_case(draw, max_n=8):
-    c = draw(flux_case(max_n=max_n))
+    c = draw(flux_case(max_n=max_n, reactive_only=draw(st.booleans())))
     del c["container"]
     return c
 
@@ -80,6 +86,9 @@ class Ctx:
         self.qf = R.ref_committor(self.T, self.src, self.snk)
         self.qb = R.ref_backward_committor(self.T, self.pi, self.src, self.snk)
         self.flux = R.ref_flux(self.T, self.pi, self.qf, self.qb)
+        # no state is ever visited by a reactive trajectory (every intermediate state commits with certainty):
+        # the reactive density pi*q+*q- is identically zero and no probability vector can be formed from it
+        self.no_reactive_state = bool(np.max(self.pi * self.qf * self.qb) <= 0.0)
         self.case = case
 
     def args(self, container=None):
@@ -97,7 +106,7 @@ class Ctx:
               "n=%s" % ("3" if self.n == 3 else "4-8" if self.n <= 8 else "9+"),
               "pops=" + c["pops"], "pi_uniform=%s" % uniform,
               "n_sources=%s" % min(len(self.src), 3), "n_sinks=%s" % min(len(self.snk), 3),
-              "intermediates=%s" % min(len(self.inter), 3),
+              "intermediates=%s" % min(len(self.inter), 3), "no_reactive_state=%s" % self.no_reactive_state,
               "src_form=" + c["src_form"], "snk_form=" + c["snk_form"]]
         if "container" in c:
             cl.append("container=" + c["container"])
@@ -127,7 +136,7 @@ def check_flux(cx, F):
     require(R.close(F[off], cx.flux[off], F_ATOL, F_RTOL),
             "reactive flux differs from pi_i * q-_i * T_ij * q+_j", got=F.tolist(), want=cx.flux.tolist(),
             pi=cx.pi.tolist(), q_forward=cx.qf.tolist(), q_backward=cx.qb.tolist())
-    require(bool(np.all(F >= -ZERO)), "negative reactive flux", got=F.tolist())
+    require(bool(np.all(F >= -NONNEG * max(float(np.max(cx.flux)), 1e-300))), "negative reactive flux", got=F.tolist())
 
 
 def run_flux(case):
@@ -212,7 +221,8 @@ def check_pops(cx, P):
             type=type(P).__name__, shape=getattr(P, "shape", None))
     P = P.astype(np.float64)
     require(bool(np.all(np.isfinite(P))), "reactive populations not finite", got=P.tolist())
-    require(bool(np.all(P >= -ZERO)), "negative reactive population", got=P.tolist())
+    _note("pops_neg", max(0.0, -float(P.min())))
+    require(bool(np.all(P >= -NONNEG)), "negative reactive population", got=P.tolist())
     _note("pops_sum", abs(P.sum() - 1.0))
     require(abs(P.sum() - 1.0) <= 1e-12, "reactive populations do not sum to 1", total=float(P.sum()), got=P.tolist())
     require(float(np.abs(P[cx.src]).max()) <= ZERO, "reactive population does not vanish on a source",
@@ -229,6 +239,8 @@ def check_pops(cx, P):
 
 def run_pops(case):
     cx = Ctx(case)
+    if cx.no_reactive_state:
+        raise Skip("reactive density is identically zero")
     a, kw = cx.args()
     check_pops(cx, _quiet(tpt.reactive_populations, *a, **kw))
     return cx.info()
@@ -247,12 +259,15 @@ def run_containers(case):
         N = _mat(_quiet(tpt.net_fluxes, *a, **kw), cx.n, "net_fluxes[%s]" % cont)
         a, kw = cx.args(cont)
         P = np.asarray(_quiet(tpt.reactive_populations, *a, **kw), dtype=np.float64)
+        if cx.no_reactive_state:
+            P = np.zeros(cx.n)      # undefined (0/0) - not compared
         if base is None:
             base = (F, N, P)
             check_flux(cx, F)
             check_net(cx, N, F)
             check_conservation(cx, N)
-            check_pops(cx, P)
+            if not cx.no_reactive_state:
+                check_pops(cx, P)
             continue
         for nm, got, want in (("reactive_fluxes", F, base[0]), ("net_fluxes", N, base[1]),
                               ("reactive_populations", P, base[2])):
@@ -297,19 +312,19 @@ def exhaustive_pairs(tier, shard, nshards):
 
 
 CLAUSES = [
-    Clause("flux_definition", flux_case(), run_flux, quick=2000, thorough=12000, exhaustive=exhaustive_pairs,
+    Clause("flux_definition", flux_case(), run_flux, quick=1500, thorough=12000, exhaustive=exhaustive_pairs,
            doc="f_ij = pi_i q-_i T_ij q+_j off the diagonal, 0 on it"),
-    Clause("net_positive_part", flux_case(), run_net, quick=1600, thorough=10000,
+    Clause("net_positive_part", flux_case(), run_net, quick=1200, thorough=10000,
            doc="net = max(f - f^T, 0); at most one direction of a pair is non-zero"),
-    Clause("conservation", flux_case(), run_conservation, quick=1600, thorough=10000, exhaustive=exhaustive_pairs,
+    Clause("conservation", flux_case(), run_conservation, quick=1200, thorough=10000, exhaustive=exhaustive_pairs,
            doc="in = out at intermediates; nothing into sources / out of sinks; out of sources = into sinks"),
-    Clause("reactive_populations", flux_case(), run_pops, quick=1200, thorough=8000,
+    Clause("reactive_populations", flux_case(reactive_only=True), run_pops, quick=1000, thorough=8000,
            doc="probability vector, zero on sources and sinks, proportional to pi q+ q-"),
-    Clause("containers_agree", multi_case(), run_containers, quick=250, thorough=2000,
+    Clause("containers_agree", multi_case(), run_containers, quick=200, thorough=2000,
            doc="every sparse container gives the ndarray values"),
     Clause("flux_definition_large", flux_case(max_n=25), run_flux, quick=0, thorough=2500),
     Clause("conservation_large", flux_case(max_n=25), run_conservation, quick=0, thorough=2500),
-    Clause("reactive_populations_large", flux_case(max_n=25), run_pops, quick=0, thorough=1500),
+    Clause("reactive_populations_large", flux_case(max_n=25, reactive_only=True), run_pops, quick=0, thorough=1500),
     Clause("containers_agree_large", multi_case(max_n=20), run_containers, quick=0, thorough=300),
 ]
 
